@@ -483,7 +483,9 @@ impl<T> DataReaderEntity<T> {
                 .filter(|cc| cc.kind == ChangeKind::Alive)
                 .count();
 
-            total_samples == self.qos.resource_limits.max_samples
+            // Only data samples count towards max_samples, so only a data sample can exceed it
+            sample.kind == ChangeKind::Alive
+                && total_samples == self.qos.resource_limits.max_samples
         };
         let is_max_instances_limit_reached = {
             let mut instance_handle_list = Vec::new();
